@@ -231,6 +231,41 @@ template <class T> static std::string do_write(Cur &c) {
   std::string s = ss.str();
   return "ok " + hex_of(s.data(), s.size());
 }
+// A second opinion for the object types: the same bytes read into an object that already wraps
+// external memory (as the objects used for writing do) and into one that already owns a buffer
+// must give the same value as the read into a fresh object.
+template <class T> static bool reread_same(const std::string &, const std::string &) { return true; }
+template <> bool reread_same<Binary>(const std::string &bytes, const std::string &expected) {
+  static const char other[12] = {'\x5a', '\x5a', '\x5a', '\x5a', '\x5a', '\x5a', '\x5a', '\x5a', '\x5a', '\x5a', '\x5a', '\x5a'};
+  for (int mode = 0; mode < 2; ++mode) {
+    std::stringstream ss(bytes);
+    msgpack::Reader r(ss);
+    Binary ext(sizeof other, other), own;
+    std::memset(own.allocate(5), 0x33, 5);
+    Binary &b = mode ? own : ext;
+    r >> b;
+    Out o;
+    Io<Binary>::print(b, o);
+    if (join(o) != expected) return false;
+  }
+  return true;
+}
+template <> bool reread_same<Extension>(const std::string &bytes, const std::string &expected) {
+  static const char other[12] = {'\x5a', '\x5a', '\x5a', '\x5a', '\x5a', '\x5a', '\x5a', '\x5a', '\x5a', '\x5a', '\x5a', '\x5a'};
+  for (int mode = 0; mode < 2; ++mode) {
+    std::stringstream ss(bytes);
+    msgpack::Reader r(ss);
+    Extension ext(77, sizeof other, other), own;
+    std::memset(own.allocate(-5, 5), 0x33, 5);
+    Extension &b = mode ? own : ext;
+    r >> b;
+    Out o;
+    Io<Extension>::print(b, o);
+    if (join(o) != expected) return false;
+  }
+  return true;
+}
+
 template <class T> static std::string do_read(const std::string &bytes) {
   std::stringstream ss(bytes);
   msgpack::Reader r(ss);
@@ -241,6 +276,7 @@ template <class T> static std::string do_read(const std::string &bytes) {
   catch (const std::length_error &) { return "err alloc"; }
   Out o;
   Io<T>::print(v, o);
+  if (!reread_same<T>(bytes, join(o))) return "ok inconsistent: the value read depends on what the destination object held before";
   std::streamoff pos = ss.tellg();
   if (pos < 0) return "ok " + join(o) + " rest=?";
   return "ok " + join(o) + " rest=" + std::to_string(bytes.size() - static_cast<std::size_t>(pos));
